@@ -208,7 +208,49 @@ def shards(tier, seed):
     out += [('api', tier, d, k, 4) for d in docs for k in range(4)]
     out += [('edit', tier, d) for d in docs]
     out += [('xmlns-sequences', tier, 'x'), ('alone-ns', tier, 'x')]
+    out += [('reuse', tier, d) for d in docs]
     return out
+
+
+def run_reuse(sv, tier, docname, res):
+    """ONE compiled object used on document A, then on every other document B, then on A again (and on an element of A): each answer equals
+    what a freshly compiled selector gives on a pristine copy.  Whatever a compiled object remembers from one document must not reach the next."""
+    specs = documents()
+    sel_idx = QUICK_SELECTORS if tier == 'quick' else list(range(len(SELECTORS)))
+
+    def answer(c, doc, target=-1):
+        els = T.elements(doc)
+        idx = {id(e): k for k, e in enumerate(els)}
+        try:
+            return [idx.get(id(x), 'foreign') for x in c.select(doc if target < 0 else els[target])]
+        except Exception as e:
+            return 'raise:' + type(e).__name__
+    fresh = {}
+    for si in sel_idx:
+        pat = SELECTORS[si]
+        for name in specs:
+            sv.purge()
+            fresh[(si, name)] = answer(sv.compile(pat), build_doc(specs[name]))
+    for si in sel_idx:
+        pat = SELECTORS[si]
+        for other in sorted(specs):
+            if other == docname:
+                continue
+            sv.purge()
+            c = sv.compile(pat)
+            a, b = build_doc(specs[docname]), build_doc(specs[other])
+            got = [answer(c, a), answer(c, b), answer(c, a), answer(c, b)]
+            want = [fresh[(si, docname)], fresh[(si, other)], fresh[(si, docname)], fresh[(si, other)]]
+            res.evaluations += 4
+            res.count('transitions', 4)
+            if fresh[(si, docname)] and fresh[(si, docname)] != fresh[(si, other)]:
+                res.nontrivial += 1
+            if got != want:
+                k = next(i for i in range(4) if got[i] != want[i])
+                res.fail({'layer': 'reuse', 'doc': docname, 'other': other, 'selector': pat},
+                         {'kind': 'compiled-object-remembers-a-document', 'selector': pat, 'call': k},
+                         f'compiled {pat!r} used on [{docname}, {other}, {docname}, {other}]: call {k} gives {got[k]!r}, a fresh compile on a pristine copy gives {want[k]!r}')
+    res.count('states', 1)
 
 
 def run_alone_ns(sv, res):
@@ -517,6 +559,8 @@ def run_shard(desc):
         res.count('states', 1)
     elif desc[0] == 'alone-ns':
         run_alone_ns(sv, res)
+    elif desc[0] == 'reuse':
+        run_reuse(sv, desc[1], desc[2], res)
     elif desc[0] == 'edit':
         run_edits(sv, desc[1], desc[2], res)
     elif desc[0] == 'bfs':
@@ -537,6 +581,13 @@ def replay(case):
         run_alone_ns(sv, r)
         for f_ in r.failures:
             if f_['case']['selector'] == case['selector'] and f_['case']['map'] == case['map']:
+                return f_['sig'], f_['detail']
+        return None
+    if case['layer'] == 'reuse':
+        r = shard.Result()
+        run_reuse(sv, 'thorough', case['doc'], r)
+        for f_ in r.failures:
+            if f_['case']['selector'] == case['selector'] and f_['case']['other'] == case['other']:
                 return f_['sig'], f_['detail']
         return None
     spec = documents()[case['doc']]
